@@ -30,23 +30,6 @@ def _reg(ctx, name):
     raise AnchorMissing(f'registered function {name}')
 
 
-def _text_models():
-    return {XLT + 'Text.cast': lambda v: v if isinstance(v, str) else str(v)}
-
-
-def _isinst17(ctx):
-    def isinst(val, refs):
-        refs = refs if isinstance(refs, tuple) else (refs,)
-        if isinstance(val, Ref):
-            return any(val.ref == r or r == 'builtin:Exception' for r in refs)
-        if any(r == 'builtin:list' for r in refs) and isinstance(val, list):
-            return True
-        if any(r == 'builtin:tuple' for r in refs) and isinstance(val, tuple):
-            return True
-        return False
-    return isinst
-
-
 class _Out:
     def __init__(self, end, value):
         self.end, self.value = end, value
@@ -100,10 +83,6 @@ def rule_1(ctx):
     _table(ctx, 'FIND', 'FIND searches find_text inside within_text', [(('bc', 'abcd', 1), 2), (('d', 'abcd', 1), 4)], 'needle and haystack are swapped')
     _table(ctx, 'FIND', 'FIND is case-sensitive', [(('B', 'abcB', 1), 4), (('a', 'Aa', 1), 2)], 'FIND folds case before searching')
     ctx.floor(7, 'index forms')
-
-
-class _Unary:
-    """Inputs realised by unary strings: only lengths matter."""
 
 
 def _run(ctx, f, env):
